@@ -134,6 +134,9 @@ class GateLock:
     def release(self):
         self.owner = None
         self.real.release()
+        if getattr(self, "park_after_release", None) == threading.current_thread().name and not self.reached.is_set():
+            self.reached.set()
+            self.go.wait(5)
 
     def __enter__(self):
         self.acquire()
@@ -294,6 +297,42 @@ def scen_woken_then_removed():
     return with_fake(body)
 
 
+def scen_closer_held_after_its_section():
+    """consumer blocked on the empty queue; close() is held right after it left its critical section (the notify has been
+    issued): the woken consumer must find the queue closed and return the end marker"""
+    q = DelayedQueue(D)
+    gl = GateLock(q._lock)
+    gl._is_owned = lambda: gl.owner == threading.current_thread().name
+    q._lock = gl
+    q._not_empty = threading.Condition(gl)
+    got = []
+    t = threading.Thread(target=lambda: got.append(q.get()), name="consumer")
+    t.start()
+    for _ in range(200):
+        if gl.count.get("consumer", 0) >= 1 and gl.owner is None and q._not_empty._waiters:
+            break
+        realtime.sleep(0.005)
+    gl.park_after_release = "closer"
+    c = threading.Thread(target=q.close, name="closer")
+    c.start()
+    gl.reached.wait(2)
+    t.join(1.0)                       # the consumer was notified: it re-checks its predicate now
+    stuck = t.is_alive()
+    gl.go.set()
+    c.join(2)
+    t.join(0.5)
+    out = []
+    if stuck and t.is_alive():
+        out.append("close() returned but the consumer woken by its notify waits again for ever (the closed flag was not set when it looked)")
+        with q._not_empty:
+            q._closed = True
+            q._not_empty.notify_all()
+        t.join(1)
+    elif got != [None]:
+        out.append(f"get() returned {got!r} after close()")
+    return out
+
+
 def scen_close_unblocks():
     q = DelayedQueue(0.1)
     got = []
@@ -315,7 +354,7 @@ def scen_close_unblocks():
 SCEN = {"remove-head-nodelay": lambda: scen_remove_head_before_pop(False), "remove-head-delayed": lambda: scen_remove_head_before_pop(True),
         "get-during-remove-scan": scen_get_during_remove_scan, "second-delayed-not-early": scen_second_delayed_not_early, "close-unblocks": scen_close_unblocks,
         "remove-head-nodelay-equal-elements": lambda: scen_remove_head_before_pop(False, True), "remove-head-delayed-equal-elements": lambda: scen_remove_head_before_pop(True, True),
-        "second-delayed-not-early-equal-elements": lambda: scen_second_delayed_not_early(True), "woken-then-removed": scen_woken_then_removed}
+        "second-delayed-not-early-equal-elements": lambda: scen_second_delayed_not_early(True), "woken-then-removed": scen_woken_then_removed, "closer-held-after-its-section": scen_closer_held_after_its_section}
 
 
 def main():
